@@ -14,9 +14,9 @@ GROUPS_=$(cat mc/props/$id/OVERLAYS 2>/dev/null | tr '\n' ' ')
 if [ -x mc/props/$id/pre.sh ]; then
   # property-specific generation step (e.g. C18 source instrumentation); prints extra overlay groups
   EXTRA=$(mc/props/$id/pre.sh "$W") || { echo "[$ID] pre-build step failed"; exit 2; }
-  GROUPS_="$GROUPS_ $EXTRA"
 fi
-python3 mc/tools/mkoverlay.py "$W/overlay.json" $GROUPS_ ${VERIF_EXTRA_OVERLAY:-} || exit 2
+# order matters (later groups win): static shims, then an externally supplied tree (selftest mutants), then generated trees
+python3 mc/tools/mkoverlay.py "$W/overlay.json" $GROUPS_ ${VERIF_EXTRA_OVERLAY:-} ${EXTRA:-} || exit 2
 ( cd mc && $GO build -overlay "$W/overlay.json" -o "$W/$id.bin" ./props/$id ) > "$W/build.log" 2>&1 || {
   echo "[$ID] BUILD FAILED (harness could not be built against the current /repo tree)"; tail -30 "$W/build.log"; exit 2; }
 case "$MODE" in
